@@ -122,7 +122,9 @@ AE = [(None, {"k": "absent"}), ("gzip", {"k": "list", "l": [{"c": "gzip", "q": 1
       ("gzip;q=0", {"k": "list", "l": [{"c": "gzip", "q": 0}]}),
       ("identity", {"k": "list", "l": [{"c": "identity", "q": 1000}]}),
       ("*", {"k": "list", "l": [{"c": "*", "q": 1000}]}),
-      ("gzip;q=0.5, identity", {"k": "list", "l": [{"c": "gzip", "q": 500}, {"c": "identity", "q": 1000}]})]
+      ("gzip;q=0.5, identity", {"k": "list", "l": [{"c": "gzip", "q": 500}, {"c": "identity", "q": 1000}]}),
+      ("GZIP;q=0, *", {"k": "list", "l": [{"c": "gzip", "q": 0}, {"c": "*", "q": 1000}]}),
+      ("Gzip;Q=1", {"k": "list", "l": [{"c": "gzip", "q": 1000}]})]
 
 
 def dir_cases(tier, seed):
